@@ -76,6 +76,88 @@ def run(R):
             R.counterexample('traverse', 'traverse-events', case, ts[:800], tr[:800])
         if len(R.samples) < 4 and sz > 5:
             R.samples.append({'tree': repr(t)[:200], 'visit': vis, 'traverse': tr[:300]})
+    # containers that contain themselves, and containers shared many times: expanded only the first time they are met
+    from ..impl import with_timeout, Timeout
+
+    def ref_visit(root):
+        """SPEC: preorder, every object AND every container expanded only the first time it is met"""
+        out, seen = [], set()
+
+        def go(x):
+            if isinstance(x, (list, tuple, dict)) or trees.is_obj(x):
+                if id(x) in seen:
+                    return
+                seen.add(id(x))
+            if trees.is_obj(x):
+                out.append(x)
+                for f in x._fields:
+                    go(getattr(x, f))
+            elif isinstance(x, (list, tuple)):
+                for y in x:
+                    go(y)
+            elif isinstance(x, dict):
+                for y in x.values():
+                    go(y)
+        go(root)
+        return out
+    cyc = []
+    a, b, c = g.B('a'), g.B('b'), g.B('c')
+    l1 = [a]; l1.append(l1); cyc.append(('list-in-itself', l1))
+    l2 = [a, b]; l2.insert(1, [c, l2]); cyc.append(('list-in-nested-list', l2))
+    d1 = {'x': a}; d1['self'] = d1; d1['y'] = b; cyc.append(('dict-in-itself', d1))
+    l3 = [b]; o3 = g.A(a, l3); l3.append(o3); cyc.append(('object-in-its-own-field', o3))
+    l4 = [a]; t4 = (l4, b); l4.append(t4); cyc.append(('tuple-and-list-cycle', t4))
+    for name, root in cyc:
+        R.count('cyclic', name, nontrivial=True)
+        want = [id(x) for x in ref_visit(root)]
+        try:
+            got = with_timeout(lambda: [id(x) for x in g.visit(root)], 3.0)
+        except Timeout:
+            got = 'does not terminate (3 s)'
+        except Exception as e:                  # noqa
+            got = 'exception ' + type(e).__name__
+        if got != want:
+            R.counterexample('cyclic', 'visit-on-cyclic-container', {'structure': name}, f'{len(want)} objects, each once, in order', got if isinstance(got, str) else f'{len(got)} objects: wrong order or repeated')
+        try:
+            ne = with_timeout(lambda: sum(1 for _ in g.traverse(root)), 3.0)
+        except Timeout:
+            R.counterexample('cyclic', 'traverse-on-cyclic-container', {'structure': name}, 'terminates', 'does not terminate (3 s)')
+
+    class CountingList(list):
+        expansions = 0
+
+        def __reversed__(self):
+            CountingList.expansions += 1
+            return list.__reversed__(self)
+
+        def __iter__(self):
+            CountingList.expansions += 1
+            return list.__iter__(self)
+    for depth in (4, 10, 16):
+        dag = CountingList([g.B('leaf')])
+        nlists = 1
+        for _ in range(depth):
+            dag = CountingList([dag, dag])
+            nlists += 1
+        R.count('shared-dag', depth, nontrivial=True)
+        CountingList.expansions = 0
+        try:
+            nobj = with_timeout(lambda: sum(1 for _ in g.visit(dag)), 5.0)
+        except Timeout:
+            nobj = 'timeout'
+        if nobj != 1 or CountingList.expansions > nlists:
+            R.counterexample('shared-dag', 'shared-container-expanded-again', {'depth': depth, 'distinct_lists': nlists},
+                             f'1 object, at most {nlists} expansions (each list once)', {'objects': nobj, 'expansions': CountingList.expansions})
+    # dicts with several object-bearing values: siblings left to right, and the same order as traverse enters them
+    for k in range(2, 6):
+        objs = [g.A(g.B(i), [g.B(10 + i)]) for i in range(k)]
+        root = g.A({f'k{i}': o for i, o in enumerate(objs)}, None)
+        R.count('dict-order', k, nontrivial=True)
+        got = [id(x) for x in g.visit(root)]
+        want = [id(x) for x in ref_visit(root)]
+        entered = [id(t.child) for t in g.traverse(root) if not t.is_finished and trees.is_obj(t.child)]
+        if got != want or got != entered:
+            R.counterexample('dict-order', 'dict-values-order', {'values': k}, 'dict values left to right, as traverse enters them', 'different order')
     # depth beyond the recursion limit: the Python stack is not in the model; run the implementation
     import sys
     depths = [2000, 20000] if R.tier == 'quick' else [2000, 20000, 100000]
